@@ -22,12 +22,12 @@ package store
 //@ pure func pathHeight(p string) uint64
 //@ pure func pathHash(p string) share.DataHash
 //@ func (*Store).heightToPath
-//@   property C07 C05
+//@   property C07 C05 C15
 //@   trusted
 //@   ensures pathKind(result) == 0 && pathHeight(result) == height
 
 //@ func (*Store).hashToPath
-//@   property C07 C05
+//@   property C07 C05 C15
 //@   trusted
 //@   ensures pathKind(result) == (ext == odsFileExt ? 1 : 2) && pathHash(result) == datahash
 
@@ -35,14 +35,14 @@ package store
 //@   effect $CacheDropped := $CacheDropped || err == nil
 
 //@ func remove
-//@   property C07 C05
+//@   property C07 C05 C15
 //@   requires pathKind(path) == 0 ==> $CacheDropped
 //@   requires pathKind(path) == 1 ==> $LinkGone
 //@   effect $LinkGone := $LinkGone || (pathKind(path) == 0 && err == nil)
 //@   effect $Complete := false
 
 //@ func (*Store).removeODS
-//@   property C07 C05
+//@   property C07 C05 C15
 //@   requires s != nil
 //@   havoc $CacheDropped $LinkGone $Complete
 //@   ensures err == nil ==> $CacheDropped && $LinkGone && !$Complete
@@ -50,7 +50,7 @@ package store
 //@   effect $RmErr := err != nil
 
 //@ func (*Store).removeQ4
-//@   property C07 C05
+//@   property C07 C05 C15
 //@   requires s != nil
 //@   havoc $CacheDropped $Complete
 //@   ensures err == nil && !datahash.IsEmptyEDS() ==> !$Complete
@@ -58,7 +58,7 @@ package store
 //@   effect $RmErr := err != nil
 
 //@ func (*Store).removeODSQ4
-//@   property C07 C05
+//@   property C07 C05 C15
 //@   requires s != nil
 //@   havoc $CacheDropped $LinkGone $Complete $RmErr
 //@   ensures err == nil ==> $LinkGone && $CacheDropped
@@ -81,7 +81,7 @@ package store
 //@   effect $Linked := err == nil
 
 //@ func (*Store).validateAndRecoverODSQ4
-//@   property C07 C05
+//@   property C07 C05 C15
 //@   requires s != nil && !$FdOpen
 //@   havoc $CacheDropped $LinkGone $Complete $FdOpen $RmErr $CreateErr $ValidOK
 //@   ensures err == nil ==> $Complete
@@ -89,7 +89,7 @@ package store
 //@   ensures err != nil ==> $RmErr || $CreateErr
 
 //@ func (*Store).validateAndRecoverODS
-//@   property C07 C05
+//@   property C07 C05 C15
 //@   requires s != nil
 //@   effect $Revalidated := true
 //@   havoc $CacheDropped $LinkGone $Complete $RmErr $CreateErr $ValidOK
